@@ -73,3 +73,33 @@ Example w_pyswarms_single :
   pyswarms_convert Z Z.sub zneghalf 1 zprior [1] (map (fun x => [x]) [[4]; [6]]) [-8; -12]
   = Some [mkS 4 0 1 [(1, 4)]; mkS 6 0 1 [(1, 6)]].
 Proof. vm_compute. reflexivity. Qed.
+
+(* the remaining conversions on states satisfying their contracts *)
+Example w_drawer :
+  post_contract Z.add zprior zL [[4; 1]; [7; 2]] [4; 7]
+  /\ drawer_convert Z Z.sub 1 zprior [1; 2] [[4; 1]; [7; 2]] [4; 7]
+     = Some [mkS 4 0 1 [(1, 4); (2, 1)]; mkS 7 0 1 [(1, 7); (2, 2)]].
+Proof. split; [unfold post_contract; repeat constructor | vm_compute; reflexivity]. Qed.
+Example w_bfgs :
+  bfgs_convert Z Z.sub 1 zprior [1; 2] [4; 1] (zL [4; 1] + zprior [4; 1]) = Some [mkS 4 0 1 [(1, 4); (2, 1)]].
+Proof. vm_compute. reflexivity. Qed.
+Example w_bfgs_history :
+  logl_contract zL [[4; 1]; [7; 2]] [4; 7]
+  /\ bfgs_vis_convert Z 1 zprior [1; 2] [[4; 1]; [7; 2]] [4; 7]
+     = Some [mkS 4 0 1 [(1, 4); (2, 1)]; mkS 7 0 1 [(1, 7); (2, 2)]].
+Proof. split; [unfold logl_contract; repeat constructor | vm_compute; reflexivity]. Qed.
+Example w_nautilus_ultranest :
+  nautilus_convert Z zprior (fun x => x * x) [1] [[4]; [7]] [4; 7] [-1; 2] = Some [mkS 4 0 1 [(1, 4)]; mkS 7 0 4 [(1, 7)]]
+  /\ ultranest_convert Z zprior [1] [[4]; [7]] [4; 7] [0; 3] = Some [mkS 4 0 0 [(1, 4)]; mkS 7 0 3 [(1, 7)]]
+  /\ Forall znonneg [0; 3].
+Proof. repeat split; try (vm_compute; reflexivity). unfold znonneg; repeat constructor; lia. Qed.
+(* Sample.from_lists truncates to the shortest list (zip); the hypotheses of C05_from_lists_pairing
+   are about the common prefix *)
+Example w_from_lists_truncates :
+  from_lists Z [1] [[4]; [7]; [9]] [4; 7] [0; 0; 0] [1; 1; 1] = [mkS 4 0 1 [(1, 4)]; mkS 7 0 1 [(1, 7)]]
+  /\ zip_all (fun r l => l = zL r) [[4]; [7]; [9]] [4; 7].
+Proof. split; [vm_compute; reflexivity | simpl; auto]. Qed.
+(* every sample of the refutation state violates only the likelihood clause *)
+Example w_emcee_partial_holds :
+  Forall (half_faithful Z zprior 1) [mkS 10 0 1 [(1, 20)]; mkS 20 0 1 [(1, 30)]].
+Proof. repeat constructor. Qed.
